@@ -112,8 +112,11 @@ def loop_form(facts, b):
     # the loop head asks a slice iterator for the next byte
     blk = b.blocks[H]
     t = blk['term']
-    if t['t'] != 'call' or 'fn' not in t['func'] or not strip_generics(t['func']['fn'].get('resolved') or t['func']['fn']['name']).endswith('Iterator>::next'):
-        return None, 'the loop head does not call Iterator::next'
+    hname = strip_generics(t['func']['fn'].get('resolved') or t['func']['fn']['name']) if t['t'] == 'call' and 'fn' in t['func'] else ''
+    if hname == 'core::slice::split_first':
+        return split_first_form(facts, b, H)
+    if not hname.endswith('Iterator>::next'):
+        return None, 'the loop head calls neither Iterator::next nor split_first'
     opt = t['dest']['local']
     # &mut iter: follow the reborrows inside the head block
     it = t['args'][0]['place']['local']
@@ -184,6 +187,68 @@ def loop_form(facts, b):
         for st in b.blocks[lb]['stmts']:
             if st['s'] == 'assign' and st['rv']['r'] == 'ref' and st['rv']['place']['local'] == it:
                 return None, 'the iterator is touched inside the loop body'
+    return benv[A], None
+
+
+def split_first_form(facts, b, H):
+    """crc32 written as  `let mut acc = crc; let mut rest = data; while let Some((octet, tail)) = rest.split_first()
+    { acc = STEP(acc, *octet); rest = tail }; acc`"""
+    blk = b.blocks[H]
+    t = blk['term']
+    opt = t['dest']['local']
+    cur = t['args'][0]['place']['local']
+    for st in blk['stmts']:
+        if st['s'] == 'assign' and st['place'] == {'local': cur, 'proj': []} and st['rv']['r'] == 'ref':
+            cur = st['rv']['place']['local']
+    sw = b.blocks[t['target']]
+    if sw['term']['t'] != 'switch':
+        return None, 'no match on the split_first result'
+    cases = {int(c[0]): c[1] for c in sw['term']['cases']}
+    b_some = cases.get(1)
+    b_none = cases.get(0, sw['term']['otherwise'])
+    if b_some is None:
+        return None, 'no Some arm'
+    data_i = [i for i in range(1, b.arg_count + 1) if b.local_ty(i).get('s') == '&[u8]']
+    crc_i = [i for i in range(1, b.arg_count + 1) if b.local_ty(i).get('s') == 'u32']
+    if len(data_i) != 1 or len(crc_i) != 1:
+        return None, 'parameters'
+    loop_blocks = b.reachable_from(b_some, stop=lambda x: x == H) | {H, t['target']}
+    # the remaining slice starts as the whole `data`
+    if cur != data_i[0]:
+        seeded = any(st['s'] == 'assign' and st['place'] == {'local': cur, 'proj': []} and st['rv']['r'] == 'use' and _is_copy_of_param(b, st['rv']['op'], data_i[0])
+                     for pb in b.blocks if pb['i'] not in loop_blocks for st in pb['stmts'])
+        if not seeded:
+            return None, 'the remaining slice does not start as the whole data'
+    xenv = eval_region(facts, b, b_none, {})
+    if not xenv or 0 not in xenv or xenv[0][0] != 'local':
+        return None, 'the value returned after the loop is not a plain local'
+    acc = [i for i in range(len(b.locals)) if (b.local_names.get(i, i) == xenv[0][1] or i == xenv[0][1]) and b.local_ty(i).get('s') == 'u32']
+    if xenv[0][1] == 'acc' and not acc:
+        acc = crc_i
+    if len(acc) != 1:
+        return None, 'accumulator local not identified'
+    A = acc[0]
+    if A != crc_i[0]:
+        if not any(st['s'] == 'assign' and st['place'] == {'local': A, 'proj': []} and st['rv']['r'] == 'use' and _is_copy_of_param(b, st['rv']['op'], crc_i[0])
+                   for pb in b.blocks if pb['i'] not in loop_blocks for st in pb['stmts']):
+            return None, 'the accumulator is not seeded with the crc parameter'
+
+    def special(p):
+        pr = [e['p'] for e in p['proj']]
+        if p['local'] == opt and pr[:2] == ['downcast', 'field'] and len(pr) >= 3 and p['proj'][2].get('i') == 0:
+            return ('local', 'octet')
+        if p['local'] == opt and pr[:2] == ['downcast', 'field'] and len(pr) >= 3 and p['proj'][2].get('i') == 1:
+            return ('local', '$tail')
+        return None
+    benv = eval_region(facts, b, b_some, {A: ('local', 'acc')}, stop=H, special=special)
+    if not benv or A not in benv:
+        return None, 'the loop body is not a straight line that assigns the accumulator'
+    # the remaining slice advances by exactly one byte: rest = tail
+    nxt = benv.get(cur)
+    while isinstance(nxt, tuple) and nxt and nxt[0] in ('ref', 'deref'):
+        nxt = nxt[1]
+    if nxt != ('local', '$tail'):
+        return None, 'the remaining slice is not replaced by the tail of split_first'
     return benv[A], None
 
 
